@@ -94,17 +94,38 @@ struct Cfg {
     mode: Mode,
     /// requester whose load is dropped when the "cancel" gate opens while it is in flight
     cancel: Option<usize>,
+    part: Part,
+}
+
+/// How the schedules of a configuration are enumerated.
+#[derive(Clone, Copy, PartialEq, Eq, Hash, Debug)]
+enum Part {
+    /// `Policy::Full`: every order of runnable tasks and environment events, preemptions bounded.
+    Full,
+    /// `Policy::Eager` + one "arrive" gate per request: every order of environment events
+    /// (request arrivals, timer firings, batch completions, cancellation); a woken task runs at once.
+    /// Used for the 3-request configurations whose Full schedule space (4·10^5 … 10^7 each) is out of budget.
+    Orders,
+}
+impl Part {
+    fn name(&self) -> &'static str {
+        match self {
+            Part::Full => "full",
+            Part::Orders => "event-orders",
+        }
+    }
 }
 
 impl Cfg {
     fn to_json(&self) -> serde_json::Value {
-        json!({"requests": self.reqs, "max_batch_size": self.max_batch, "cache": self.cache.name(), "prefeed": self.prefeed, "loader": self.mode.name(), "cancel": self.cancel})
+        json!({"requests": self.reqs, "max_batch_size": self.max_batch, "cache": self.cache.name(), "prefeed": self.prefeed, "loader": self.mode.name(), "cancel": self.cancel, "part": self.part.name()})
     }
     fn from_json(v: &serde_json::Value) -> Option<Cfg> {
         let reqs = v["requests"].as_array()?.iter().map(|r| r.as_array().map(|a| a.iter().filter_map(|x| x.as_i64().map(|x| x as i32)).collect())).collect::<Option<Vec<Vec<i32>>>>()?;
         let cache = [CacheK::No, CacheK::Map, CacheK::Lru2].into_iter().find(|c| Some(c.name()) == v["cache"].as_str())?;
         let mode = [Mode::Ok, Mode::Partial, Mode::ErrAll, Mode::ErrFirst].into_iter().find(|c| Some(c.name()) == v["loader"].as_str())?;
-        Some(Cfg { reqs, max_batch: v["max_batch_size"].as_u64()? as usize, cache, prefeed: v["prefeed"].as_bool()?, mode, cancel: v["cancel"].as_u64().map(|x| x as usize) })
+        let part = [Part::Full, Part::Orders].into_iter().find(|c| Some(c.name()) == v["part"].as_str())?;
+        Some(Cfg { reqs, max_batch: v["max_batch_size"].as_u64()? as usize, cache, prefeed: v["prefeed"].as_bool()?, mode, cancel: v["cancel"].as_u64().map(|x| x as usize), part })
     }
     fn largest(&self) -> usize {
         self.reqs.iter().map(|r| r.len()).max().unwrap_or(0)
@@ -143,36 +164,71 @@ fn request_families(n: usize) -> Vec<Vec<Vec<i32>>> {
     out
 }
 
-fn configurations(quick: bool) -> Vec<Cfg> {
-    let mut fams = request_families(2);
-    let three = request_families(3);
-    if quick {
-        // quick: the 3-requester families made of single keys and pairs only
-        fams.extend(three.into_iter().filter(|f| f.iter().map(|r| r.len()).sum::<usize>() <= 4));
-    } else {
-        fams.extend(three);
-    }
-    let mut out = Vec::new();
-    for reqs in &fams {
-        for max_batch in [1usize, 2, 3] {
-            for (cache, prefeed) in [(CacheK::No, false), (CacheK::Map, false), (CacheK::Map, true), (CacheK::Lru2, false), (CacheK::Lru2, true)] {
-                for mode in [Mode::Ok, Mode::Partial, Mode::ErrAll, Mode::ErrFirst] {
+const CACHES: [(CacheK, bool); 5] = [(CacheK::No, false), (CacheK::Map, false), (CacheK::Map, true), (CacheK::Lru2, false), (CacheK::Lru2, true)];
+const MODES: [Mode; 4] = [Mode::Ok, Mode::Partial, Mode::ErrAll, Mode::ErrFirst];
+
+fn product(out: &mut Vec<Cfg>, part: Part, fams: &[Vec<Vec<i32>>], batches: &[usize], caches: &[(CacheK, bool)], modes: &[Mode], with_cancel: bool) {
+    for reqs in fams {
+        for &max_batch in batches {
+            for &(cache, prefeed) in caches {
+                for &mode in modes {
                     let mut cancels: Vec<Option<usize>> = vec![None];
-                    let mut seen: Vec<&Vec<i32>> = Vec::new();
-                    for (i, r) in reqs.iter().enumerate() {
-                        // cancelling either of two identical requests is the same configuration
-                        if !seen.contains(&r) {
-                            seen.push(r);
-                            cancels.push(Some(i));
+                    if with_cancel {
+                        let mut seen: Vec<&Vec<i32>> = Vec::new();
+                        for (i, r) in reqs.iter().enumerate() {
+                            // cancelling either of two identical requests is the same configuration
+                            if !seen.contains(&r) {
+                                seen.push(r);
+                                cancels.push(Some(i));
+                            }
                         }
                     }
                     for cancel in cancels {
-                        out.push(Cfg { reqs: reqs.clone(), max_batch, cache, prefeed, mode, cancel });
+                        out.push(Cfg { reqs: reqs.clone(), max_batch, cache, prefeed, mode, cancel, part });
                     }
                 }
             }
         }
     }
+}
+
+fn configurations(quick: bool) -> Vec<Cfg> {
+    let two = request_families(2);
+    let three = request_families(3);
+    let three_small: Vec<Vec<Vec<i32>>> = three.iter().filter(|f| f.iter().map(|r| r.len()).sum::<usize>() <= 4).cloned().collect();
+    let mut out = Vec::new();
+    // 2 requests, full schedule space: every configuration without cancellation; with cancellation
+    // (10^4 schedules each) all of them in the thorough tier, a sub-product in the quick tier
+    product(&mut out, Part::Full, &two, &[1, 2, 3], &CACHES, &MODES, false);
+    let cancel_only = |v: &mut Vec<Cfg>, from: usize| {
+        let mut i = from;
+        while i < v.len() {
+            if v[i].cancel.is_none() {
+                v.remove(i);
+            } else {
+                i += 1;
+            }
+        }
+    };
+    let n = out.len();
+    if quick {
+        product(&mut out, Part::Full, &two, &[1, 2, 3], &[(CacheK::No, false), (CacheK::Lru2, true)], &[Mode::Ok, Mode::ErrFirst], true);
+    } else {
+        product(&mut out, Part::Full, &two, &[1, 2, 3], &CACHES, &MODES, true);
+    }
+    cancel_only(&mut out, n);
+    // 3 requests, full schedule space (5·10^5 schedules each at max_batch_size 3, 10^7 at 2)
+    let pick = vec![vec![vec![0], vec![0], vec![1]], vec![vec![0], vec![1], vec![0, 1]]];
+    if quick {
+        product(&mut out, Part::Full, &pick, &[3], &[(CacheK::No, false), (CacheK::Map, false)], &[Mode::Ok], false);
+    } else {
+        product(&mut out, Part::Full, &three_small, &[3], &[(CacheK::No, false), (CacheK::Map, false), (CacheK::Lru2, true)], &[Mode::Ok], false);
+        product(&mut out, Part::Full, &pick, &[2], &[(CacheK::No, false)], &[Mode::Ok], false);
+    }
+    // every order of environment events: all 2-request configurations, and the 3-request ones
+    // (quick: families with at most 4 keys in total)
+    product(&mut out, Part::Orders, &two, &[1, 2, 3], &CACHES, &MODES, true);
+    product(&mut out, Part::Orders, if quick { &three_small } else { &three }, &[1, 2, 3], &CACHES, &MODES, true);
     out
 }
 
@@ -284,7 +340,11 @@ impl Timer for GatedTimer {
     }
 }
 
-async fn requester<C: CacheFactory>(i: usize, dl: Arc<DataLoader<L, C>>, keys: Vec<i32>, cancel: bool, sh: Shared, h: Handle) {
+async fn requester<C: CacheFactory>(i: usize, dl: Arc<DataLoader<L, C>>, keys: Vec<i32>, cancel: bool, arrive: bool, sh: Shared, h: Handle) {
+    if arrive {
+        // the arrival of the request is an environment event
+        h.gate("arrive").await;
+    }
     {
         let mut g = sh.lock().unwrap();
         let t = g.tick();
@@ -351,7 +411,7 @@ fn exec_with<C: CacheFactory>(cfg: &Cfg, factory: C, ch: &mut Chooser, preempt: 
         remaining: cfg.reqs.len(),
         root_waker: None,
     }));
-    let rc = RunCfg { policy: Policy::Full, gate_class: Class::Exhaustive, preempt_class: preempt, max_steps: 5_000 };
+    let rc = RunCfg { policy: if cfg.part == Part::Full { Policy::Full } else { Policy::Eager }, gate_class: Class::Exhaustive, preempt_class: preempt, max_steps: 5_000 };
     let r = catch_quiet(|| {
         let dl = Arc::new(DataLoader::with_cache(L { h: h.clone(), sh: sh.clone(), mode: cfg.mode }, Sp(h.clone()), GatedTimer(h.clone()), factory).max_batch_size(cfg.max_batch));
         let (h2, sh2) = (h.clone(), sh.clone());
@@ -360,7 +420,7 @@ fn exec_with<C: CacheFactory>(cfg: &Cfg, factory: C, ch: &mut Chooser, preempt: 
                 dl.feed_one(FED_KEY, FED_VALUE).await;
             }
             for (i, keys) in cfg.reqs.iter().enumerate() {
-                h2.spawn(format!("req{i}"), requester(i, dl.clone(), keys.clone(), cfg.cancel == Some(i), sh2.clone(), h2.clone()));
+                h2.spawn(format!("req{i}"), requester(i, dl.clone(), keys.clone(), cfg.cancel == Some(i), cfg.part == Part::Orders, sh2.clone(), h2.clone()));
             }
             std::future::poll_fn(|cx| {
                 let mut g = sh2.lock().unwrap();
@@ -536,9 +596,11 @@ pub fn run(cx: &Cx) {
     let quick = cx.quick();
     let bound: u32 = cx.tier.pick(2, 3);
     cx.rule(
-        "execution = (configuration, schedule). Configuration = 2–3 requests (non-empty key sets ⊆ {0,1,2}, at least two sharing a key; quick: 3-request families limited to ≤ 4 keys in total) × max_batch_size {1,2,3} \
+        "execution = (configuration, schedule). Configuration = 2–3 requests (non-empty key sets ⊆ {0,1,2}, at least two sharing a key) × max_batch_size {1,2,3} \
          × cache {NoCache, HashMapCache, HashMapCache+feed(2), LruCache(2), LruCache(2)+feed(2)} × loader {ok, partial (no key 1), every batch fails, first batch fails} × cancellation {none, drop request i while in flight}. \
-         Schedule = every order of runnable tasks and environment events (timer gates, batch completions, cancellation: exhaustive) with at most B preemptions. \
+         Part 'full' (Policy::Full): every order of runnable tasks and environment events (timer gates, batch completions, cancellation: exhaustive) with at most B preemptions, for every 2-request configuration \
+         (quick: with cancellation only for {NoCache, LruCache(2)+feed} × {ok, first batch fails}) and for 3-request configurations at max_batch_size 3 (quick: 4; thorough: every family with ≤ 4 keys in total × 3 caches, plus 2 at max_batch_size 2). \
+         Part 'event-orders' (Policy::Eager, one arrival gate per request): every order of request arrivals, timer firings, batch completions and the cancellation, for every 2-request and 3-request configuration (quick: 3-request families with ≤ 4 keys in total). \
          Non-trivial = distinct (configuration, outcome) in which a batch served two requests at once or a key was answered from the cache without a loader call.",
     );
     cx.assume("spawned tasks and timers run: a run may only end when nothing is runnable and no environment event is outstanding");
@@ -546,11 +608,7 @@ pub fn run(cx: &Cx) {
     cx.assume("the order of keys inside one Loader::load call and of entries in result maps comes from std HashSet/HashMap iteration and is not judged (compared as sets); the loader's result map iterates in ascending key order");
     cx.assume("a value can be served from the cache only if it was fed before the requests started or returned by a batch that completed before the load started; LRU eviction is not modelled (a possibly-cached key is not required to reach the loader)");
 
-    let mut cfgs = configurations(quick);
-    if let Some(n) = std::env::var("C28_ONLY").ok().and_then(|s| s.parse::<usize>().ok()) {
-        let step = (cfgs.len() / n.max(1)).max(1);
-        cfgs = cfgs.into_iter().step_by(step).collect();
-    }
+    let cfgs = configurations(quick);
     let preempt = Class::Dev(0);
     let ecfg = ExploreCfg { bounds: [bound, 0, 0, 0], max_execs: 20_000_000, parallel: true };
 
@@ -562,30 +620,57 @@ pub fn run(cx: &Cx) {
     let outcomes: Mutex<BTreeSet<u64>> = Mutex::new(BTreeSet::new());
     let ends: Mutex<BTreeMap<String, u64>> = Mutex::new(BTreeMap::new());
     let max_batches = AtomicU64::new(0);
+    let preempt_points = AtomicU64::new(0);
+    let preempt_taken = AtomicU64::new(0);
+    let per_part: Mutex<BTreeMap<&'static str, (u64, u64)>> = Mutex::new(BTreeMap::new());
+
+    #[derive(Default)]
+    struct Local {
+        outcomes: BTreeSet<u64>,
+        nontrivial: BTreeSet<u64>,
+        ends: BTreeMap<String, u64>,
+        moves: u64,
+        max_batches: u64,
+        preempt_points: u64,
+        preempt_taken: u64,
+        /// determinism self-test candidate: the visited execution with the greatest choice-sequence hash
+        probe: Option<(u64, Vec<u32>, u64)>,
+    }
 
     cfgs.par_iter().for_each(|cfg| {
         let cfg_h = h64(cfg);
-        // determinism self-test candidate: the visited execution with the greatest choice-sequence hash
-        let probe: Mutex<Option<(u64, Vec<u32>, u64)>> = Mutex::new(None);
+        let local: Mutex<Local> = Mutex::new(Local::default());
         let run1 = |ch: &mut Chooser| exec(cfg, ch, preempt);
         let visit = |ch: &Chooser, x: Exec| {
-            cx.eval();
-            moves.fetch_add(x.steps, Ordering::Relaxed);
-            max_batches.fetch_max(x.batches.len() as u64, Ordering::Relaxed);
             let obs = observation(&x);
             let oh = h64(&(cfg_h, &obs));
-            outcomes.lock().unwrap().insert(oh);
-            *ends.lock().unwrap().entry(obs.0.clone()).or_insert(0) += 1;
             let j = judge(cfg, &x);
-            if j.nontrivial {
-                cx.nontrivial(oh);
+            let (mut pp, mut pt_taken) = (0u64, 0u64);
+            for pt in &ch.points {
+                if let Some(ac) = &pt.alt_classes {
+                    if ac.iter().any(|c| matches!(c, Class::Dev(_))) {
+                        pp += 1;
+                        if matches!(ac[pt.chosen as usize], Class::Dev(_)) {
+                            pt_taken += 1;
+                        }
+                    }
+                }
             }
             let choices = ch.choices();
             let chh = h64(&choices);
             {
-                let mut g = probe.lock().unwrap();
-                if g.as_ref().map(|(h, _, _)| chh > *h).unwrap_or(true) {
-                    *g = Some((chh, choices.clone(), h64(&obs)));
+                let mut g = local.lock().unwrap();
+                g.moves += x.steps;
+                g.max_batches = g.max_batches.max(x.batches.len() as u64);
+                g.outcomes.insert(oh);
+                if j.nontrivial {
+                    g.nontrivial.insert(oh);
+                }
+                *g.ends.entry(obs.0.clone()).or_insert(0) += 1;
+                g.preempt_points += pp;
+                g.preempt_taken += pt_taken;
+                if g.probe.as_ref().map(|(h, _, _)| chh > *h).unwrap_or(true) {
+                    g.probe = Some((chh, choices.clone(), h64(&obs)));
                 }
             }
             cx.sample_with(oh, || describe(cfg, &x));
@@ -611,13 +696,35 @@ pub fn run(cx: &Cx) {
             capped.fetch_add(1, Ordering::Relaxed);
         }
         execs.fetch_add(st.executions, Ordering::Relaxed);
-        if std::env::var("C28_TRACE").is_ok() {
-            eprintln!("{} execs={} points={} depth={}", cfg.to_json(), st.executions, st.points, st.max_depth);
+        cx.evals(st.executions);
+        let local = local.into_inner().unwrap();
+        moves.fetch_add(local.moves, Ordering::Relaxed);
+        max_batches.fetch_max(local.max_batches, Ordering::Relaxed);
+        preempt_points.fetch_add(local.preempt_points, Ordering::Relaxed);
+        preempt_taken.fetch_add(local.preempt_taken, Ordering::Relaxed);
+        cx.nontrivial_many(local.nontrivial.iter().cloned());
+        outcomes.lock().unwrap().extend(local.outcomes.iter().cloned());
+        {
+            let mut g = ends.lock().unwrap();
+            for (k, v) in &local.ends {
+                *g.entry(k.clone()).or_insert(0) += v;
+            }
+        }
+        {
+            let mut g = per_part.lock().unwrap();
+            let e = g.entry(match (cfg.part, cfg.reqs.len()) {
+                (Part::Full, 2) => "full/2-requests",
+                (Part::Full, _) => "full/3-requests",
+                (Part::Orders, 2) => "event-orders/2-requests",
+                (Part::Orders, _) => "event-orders/3-requests",
+            }).or_insert((0, 0));
+            e.0 += 1;
+            e.1 += st.executions;
         }
         points.fetch_add(st.points, Ordering::Relaxed);
         max_depth.fetch_max(st.max_depth, Ordering::Relaxed);
         // the harness owns all nondeterminism: one recorded schedule, replayed twice, gives the recorded observation
-        if let Some((_, choices, oh)) = probe.into_inner().unwrap() {
+        if let Some((_, choices, oh)) = local.probe {
             for _ in 0..2 {
                 let mut ch = Chooser::from_choices(&choices);
                 let x = exec(cfg, &mut ch, preempt);
@@ -644,6 +751,12 @@ pub fn run(cx: &Cx) {
     cx.extra("preemption_bound_completed", json!(if capped.load(Ordering::Relaxed) == 0 { json!(bound) } else { json!(null) }));
     cx.extra("configurations_capped", json!(capped.load(Ordering::Relaxed)));
     cx.extra("environment_event_orders", json!("exhaustive"));
+    cx.extra("preemption_points_met", json!(preempt_points.load(Ordering::Relaxed)));
+    cx.extra("preemptions_taken", json!(preempt_taken.load(Ordering::Relaxed)));
+    cx.extra(
+        "per_part_configurations_schedules",
+        json!(per_part.lock().unwrap().iter().map(|(k, v)| (k.to_string(), json!({"configurations": v.0, "schedules": v.1}))).collect::<serde_json::Map<String, serde_json::Value>>()),
+    );
     cx.exhaustive(capped.load(Ordering::Relaxed) == 0);
 }
 
